@@ -274,9 +274,10 @@ def callPubsubCb (m : ModId) (evts : List Evt) : Prog Unit := do
     let _ ← callCb (.evt h) m evts
     modify fun s => (s.updMod m fun md => { md with recv := md.recv + evts.length })
     modify (setCurrOf m outer)
-    -- events the handler stashed hold their own reference and survive
+    -- events that were stashed meanwhile (by this module, or by another one that was handed the event) hold their
+    -- own reference and survive
     modify fun s =>
-      let keep := match s.mods[m]? with | some md => md.stash | none => []
+      let keep := s.mods.flatMap (·.stash)
       destroyEvts s evts keep
 
 /-! ## Module life cycle (mod.c) -/
